@@ -52,7 +52,7 @@ def run_shard(spec, ctx):
         strat = E.cases(thorough=ctx.thorough, lossless=True)
     else:
         strat = E.cases(thorough=ctx.thorough, lossless=False, big_budget=True)
-    run_given(strat, body, ctx, ctx.pick(150, 420))
+    run_given(strat, body, ctx, ctx.pick(150, 320))
 
 
 def replay(data, col):
